@@ -254,7 +254,11 @@ func libFrameFromDump(dump string) string {
 func fatalClass(dump string) string {
 	for _, l := range strings.Split(dump, "\n") {
 		if strings.HasPrefix(l, "fatal error: ") {
-			return "fatal:" + normMsg(strings.TrimPrefix(l, "fatal error: "))
+			msg := strings.TrimPrefix(l, "fatal error: ")
+			if strings.HasPrefix(msg, "out of memory") || strings.Contains(msg, "cannot allocate") {
+				msg = "out of memory"
+			}
+			return "fatal:" + normMsg(msg)
 		}
 		if strings.HasPrefix(l, "panic: ") {
 			return "panic:" + panicClass(strings.TrimPrefix(l, "panic: "))
@@ -638,13 +642,24 @@ func ctlMain(propID, tier string) int {
 			start = v.res.Narrow
 		}
 		minPlan, minRes, steps := minimise(p, start, v.res)
+		if steps < 0 && start != v.plan {
+			// the narrowed plan does not reproduce on its own: try the plan as executed
+			minPlan, minRes, steps = minimise(p, v.plan, v.res)
+		}
+		if steps < 0 {
+			// A violation that a fresh child cannot reproduce from the plan is
+			// not evidence about the code (plans are pure functions of their
+			// content): infrastructure, never a VIOLATION line.
+			agg.infra = append(agg.infra, fmt.Sprintf("plan %d: %s|%s was reported once but does not reproduce from its plan in a fresh worker:\n%s", v.plan.Idx, v.res.Class, v.res.Site, head(v.res.Detail, 1500)))
+			continue
+		}
 		// the minimised violation may turn out to be a listed finding
 		if f := matchKnown(known, propID, minRes.key()); f != nil {
 			v.known = f
 			fmt.Printf("KNOWN-FINDING: property=%s key=%q %s\n", propID, minRes.key(), f.What)
 			continue
 		}
-		rf := replayFile{Property: propID, Class: minRes.Class, Site: minRes.Site, Detail: minRes.Detail, Seed: seed, Minimised: steps > 0, Steps: steps, Plan: minPlan, Original: v.plan}
+		rf := replayFile{Property: propID, Class: minRes.Class, Site: minRes.Site, Detail: minRes.Detail, Seed: seed, Minimised: steps > 0, Steps: max(steps, 0), Plan: minPlan, Original: v.plan}
 		dir := filepath.Join(verifRoot(), "replays")
 		if d := os.Getenv("VERIF_REPLAY_DIR"); d != "" {
 			dir = d
@@ -714,7 +729,7 @@ func minimise(p Property, plan *Plan, res *Result) (*Plan, *Result, int) {
 	if r := run(plan); r.Verdict == "violation" && r.Class == res.Class {
 		curRes = r
 	} else {
-		return plan, res, 0
+		return plan, res, -1 // did not reproduce
 	}
 	steps := 0
 	deadline := time.Now().Add(time.Duration(envInt("VERIF_MINIMISE_S", 60)) * time.Second)
